@@ -21,12 +21,12 @@ Definition Pc (c : cfgT) (ch : list layer) (ks : kstate) (o : op) : bool :=
 (* ------------------------------------------------------------------ well-formedness along a trace *)
 Definition tys_ok (its : list item) : Prop := Forall (fun it => nospace (it_ty it) = true) its.
 
-Lemma itrace_wf ks ksc its ops ks' ksc' st :
-  itrace ks ksc its ops ks' ksc' st -> wf_table (ks_tab ks) = true -> tys_ok its ->
+Lemma itrace_wf ks its ops ks' st :
+  itrace ks its ops ks' st -> wf_table (ks_tab ks) = true -> tys_ok its ->
   wf_table (ks_tab ks') = true.
 Proof.
-  induction 1 as [ks ksc|ks ksc its|ks ksc it its ops ks' ksc' st Hc Ht IH
-                 |ks ksc it its f ks1 ops ks' ksc' st Hc Hk Ht IH|ks ksc it its f Hc Hk];
+  induction 1 as [ks|ks its|ks it its ops ks' st Hc Ht IH
+                 |ks it its f ks1 ops ks' st Hc Hk Ht IH|ks it its f Hc Hk];
     intros Hw Hty; auto.
   - inversion Hty; subst. now apply IH.
   - inversion Hty as [|? ? Hty1 Hty2]; subst. apply IH; [|exact Hty2].
@@ -37,24 +37,13 @@ Lemma ltrace_wf ks ls ops ks' st :
   ltrace ks ls ops ks' st -> wf_table (ks_tab ks) = true -> Forall tys_ok ls ->
   wf_table (ks_tab ks') = true.
 Proof.
-  induction 1 as [ks|ks ls|ks its ls ops1 ks1 ksc1 ops2 ks2 st Hi Hl IH|ks its ls ops1 ks1 ksc1 st Hst Hi];
+  induction 1 as [ks|ks ls|ks its ls ops1 ks1 ops2 ks2 st Hi Hl IH|ks its ls ops1 ks1 st Hst Hi];
     intros Hw Hty; auto.
   - inversion Hty; subst. apply IH; [|assumption]. eapply itrace_wf; eassumption.
   - inversion Hty; subst. eapply itrace_wf; eassumption.
 Qed.
 
 (* ------------------------------------------------------------------ (c) *)
-(* the cache [ksc] may lag behind the kernel [ks] by the targets in D *)
-Definition coh (ks ksc : kstate) (D : list bytes) : Prop :=
-  forall t, In t (mps ks) -> In t (mps ksc) \/ In t D.
-
-(* no item's target is among the targets mounted without a refresh before it *)
-Fixpoint clean_items (D : list bytes) (its : list item) : Prop :=
-  match its with
-  | [] => True
-  | it :: r => ~ In (it_tgt it) D /\ clean_items (if it_refresh it then D else it_tgt it :: D) r
-  end.
-
 Lemma replay_mops_true c ch f ksr it R : Pc c ch ksr (op1 it) = true ->
   replay_calls f ksr (mops it true ++ R) (Pc c ch)
   = replay_calls f (match kmount_it f ksr it with KOk k => k | KErr => ksr end) R (Pc c ch).
@@ -92,30 +81,27 @@ Proof.
   - apply existsb_exists. exists x. split; assumption.
 Qed.
 
-Lemma itrace_needed c ch bd ks ksc its ops ks' ksc' st :
-  itrace ks ksc its ops ks' ksc' st ->
-  forall D, wf_table (ks_tab ks) = true -> wf_table (ks_tab ksc) = true -> coh ks ksc D ->
-  clean_items D its -> Forall (item_ok bd) its -> (exists x, In x ch /\ bd = build_path c x) ->
+(* every decision is taken on a fresh probe of a well-formed table: a target that is mounted on
+   is not a mountpoint; the replay (over any file tree) keeps a subset of the model's mountpoints *)
+Lemma itrace_needed c ch bd ks its ops ks' st :
+  itrace ks its ops ks' st ->
+  wf_table (ks_tab ks) = true ->
+  Forall (item_ok bd) its -> (exists x, In x ch /\ bd = build_path c x) ->
   forall f ksr, incl (mps ksr) (mps ks) ->
     (st = TFailed -> replay_calls f ksr ops (Pc c ch) = true)
     /\ (st <> TFailed ->
         exists ksr', incl (mps ksr') (mps ks')
           /\ forall rest, replay_calls f ksr (ops ++ rest) (Pc c ch) = replay_calls f ksr' rest (Pc c ch)).
 Proof.
-  induction 1 as [ks ksc|ks ksc its|ks ksc it its ops ks' ksc' st Hc Ht IH
-                 |ks ksc it its f0 ks1 ops ks' ksc' st Hc Hk Ht IH|ks ksc it its f0 Hc Hk];
-    intros D Hw Hwc Hcoh Hcl Hok Hbd f ksr Hincl.
+  induction 1 as [ks|ks its|ks it its ops ks' st Hc Ht IH
+                 |ks it its f0 ks1 ops ks' st Hc Hk Ht IH|ks it its f0 Hc Hk];
+    intros Hw Hok Hbd f ksr Hincl.
   - split; [discriminate|]. intros _. exists ksr. split; [exact Hincl|reflexivity].
   - split; [discriminate|]. intros _. exists ksr. split; [exact Hincl|reflexivity].
-  - destruct Hcl as [_ Hcl]. inversion Hok as [|? ? Hok1 Hok2]; subst.
-    apply (IH (if it_refresh it then D else it_tgt it :: D) Hw Hwc); [|exact Hcl|exact Hok2|exact Hbd|exact Hincl].
-    destruct (it_refresh it); [exact Hcoh|]. intros t Ht0. destruct (Hcoh t Ht0); [now left|right; now right].
-  - destruct Hcl as [HnD Hcl]. inversion Hok as [|? ? Hok1 Hok2]; subst.
-    (* the target is not mounted, neither in the model's kernel nor in the replayed one *)
-    assert (Hnc : ~ In (it_tgt it) (mps ksc)).
-    { rewrite cmounted_wf in Hc by exact Hwc. now apply mounted_at_false in Hc. }
+  - inversion Hok as [|? ? Hok1 Hok2]; subst. now apply IH.
+  - inversion Hok as [|? ? Hok1 Hok2]; subst.
     assert (Hnk : ~ In (it_tgt it) (mps ks)).
-    { intros Hin. destruct (Hcoh _ Hin); contradiction. }
+    { rewrite cmounted_wf in Hc by exact Hw. now apply mounted_at_false in Hc. }
     assert (Hnr : ~ In (it_tgt it) (mps ksr)) by (intros Hin; apply Hnk; now apply Hincl).
     pose proof (Pc_op1 c ch bd ksr it Hnr Hok1 Hbd) as HP.
     destruct Hok1 as (Hty & Hu & Hov).
@@ -127,29 +113,15 @@ Proof.
       - rewrite (kmount_mps _ _ _ _ _ _ _ _ Ekr), E1.
         apply incl_app; [now apply incl_appl|apply incl_appr; now apply delta_incl].
       - rewrite E1. now apply incl_appl. }
-    assert (Hcoh1 : coh ks1 (if it_refresh it then ks1 else ksc) (if it_refresh it then D else it_tgt it :: D)).
-    { destruct (it_refresh it) eqn:Er; [intros t Ht0; now left|].
-      destruct (Hov eq_refl) as (Ety & Esrc & Etgt).
-      pose proof (kmount_mps _ _ _ _ _ _ _ _ Hk) as E1. rewrite Ety in E1.
-      change (mount_flags overlay) with 0 in E1. unfold delta in E1.
-      change (has_flag 0 MS_REMOUNT) with false in E1. change (has_flag 0 MS_SLAVE) with false in E1.
-      change (has_flag 0 MS_BIND) with false in E1. cbv iota in E1.
-      intros t Ht0. rewrite E1 in Ht0. apply in_app_or in Ht0 as [Ht0|[<-|[]]].
-      - destruct (Hcoh t Ht0); [now left|right; now right].
-      - right. now left. }
-    assert (Hwc1 : wf_table (ks_tab (if it_refresh it then ks1 else ksc)) = true)
-      by (destruct (it_refresh it); assumption).
-    destruct (IH _ Hw1 Hwc1 Hcoh1 Hcl Hok2 Hbd f ksr1 Hincl1) as [IH1 IH2].
+    destruct (IH Hw1 Hok2 Hbd f ksr1 Hincl1) as [IH1 IH2].
     split.
     + intros Hst. rewrite replay_mops_true by exact HP. now apply IH1.
     + intros Hst. destruct (IH2 Hst) as (ksr' & Hi' & Hr'). exists ksr'. split; [exact Hi'|].
       intros rest. rewrite <- app_assoc, replay_mops_true by exact HP. apply Hr'.
   - split; [|congruence]. intros _.
-    destruct Hcl as [HnD _]. inversion Hok as [|? ? Hok1 Hok2]; subst.
-    assert (Hnc : ~ In (it_tgt it) (mps ksc)).
-    { rewrite cmounted_wf in Hc by exact Hwc. now apply mounted_at_false in Hc. }
+    inversion Hok as [|? ? Hok1 Hok2]; subst.
     assert (Hnk : ~ In (it_tgt it) (mps ks)).
-    { intros Hin. destruct (Hcoh _ Hin); contradiction. }
+    { rewrite cmounted_wf in Hc by exact Hw. now apply mounted_at_false in Hc. }
     assert (Hnr : ~ In (it_tgt it) (mps ksr)) by (intros Hin; apply Hnk; now apply Hincl).
     pose proof (Pc_op1 c ch bd ksr it Hnr Hok1 Hbd) as HP.
     unfold mops. cbn [andb].
@@ -163,7 +135,7 @@ Proof.
 Qed.
 
 Definition layer_clean (c : cfgT) (ch : list layer) (its : list item) : Prop :=
-  clean_items [] its /\ exists x, In x ch /\ Forall (item_ok (build_path c x)) its.
+  exists x, In x ch /\ Forall (item_ok (build_path c x)) its.
 
 Lemma item_ok_tys bd its : Forall (item_ok bd) its -> tys_ok its.
 Proof. intros H. eapply Forall_impl; [|exact H]. intros it (Ht & _). exact Ht. Qed.
@@ -172,18 +144,16 @@ Lemma ltrace_needed c ch ks ls ops ks' st :
   ltrace ks ls ops ks' st -> wf_table (ks_tab ks) = true -> Forall (layer_clean c ch) ls ->
   forall f ksr, incl (mps ksr) (mps ks) -> replay_calls f ksr ops (Pc c ch) = true.
 Proof.
-  induction 1 as [ks|ks ls|ks its ls ops1 ks1 ksc1 ops2 ks2 st Hi Hl IH|ks its ls ops1 ks1 ksc1 st Hst Hi];
+  induction 1 as [ks|ks ls|ks its ls ops1 ks1 ops2 ks2 st Hi Hl IH|ks its ls ops1 ks1 st Hst Hi];
     intros Hw Hcl f ksr Hincl; try reflexivity.
-  - inversion Hcl as [|? ? (Hc1 & x & Hx & Hok) Hcl2]; subst.
-    assert (Hcoh : coh ks ks []) by (intros t Ht0; now left).
-    destruct (itrace_needed c ch (build_path c x) _ _ _ _ _ _ _ Hi [] Hw Hw Hcoh Hc1 Hok
+  - inversion Hcl as [|? ? (x & Hx & Hok) Hcl2]; subst.
+    destruct (itrace_needed c ch (build_path c x) _ _ _ _ _ Hi Hw Hok
                 (ex_intro _ x (conj Hx eq_refl)) f ksr Hincl) as [_ H2].
     destruct (H2 ltac:(discriminate)) as (ksr' & Hi' & Hr'). rewrite Hr'.
     apply IH; [|exact Hcl2|exact Hi'].
     eapply itrace_wf; [exact Hi|exact Hw|]. eapply item_ok_tys; exact Hok.
-  - inversion Hcl as [|? ? (Hc1 & x & Hx & Hok) Hcl2]; subst.
-    assert (Hcoh : coh ks ks []) by (intros t Ht0; now left).
-    destruct (itrace_needed c ch (build_path c x) _ _ _ _ _ _ _ Hi [] Hw Hw Hcoh Hc1 Hok
+  - inversion Hcl as [|? ? (x & Hx & Hok) Hcl2]; subst.
+    destruct (itrace_needed c ch (build_path c x) _ _ _ _ _ Hi Hw Hok
                 (ex_intro _ x (conj Hx eq_refl)) f ksr Hincl) as [H1 H2].
     destruct st; [congruence| |now apply H1].
     destruct (H2 ltac:(discriminate)) as (ksr' & Hi' & Hr').
@@ -191,27 +161,21 @@ Proof.
 Qed.
 
 (* ------------------------------------------------------------------ (d), first half: everything is mounted *)
-Lemma itrace_mounted ks ksc its ops ks' ksc' st :
-  itrace ks ksc its ops ks' ksc' st -> st = TDone ->
-  wf_table (ks_tab ksc) = true -> incl (mps ksc) (mps ks) -> tys_ok its ->
-  wf_table (ks_tab ks) = true ->
+Lemma itrace_mounted ks its ops ks' st :
+  itrace ks its ops ks' st -> st = TDone -> tys_ok its -> wf_table (ks_tab ks) = true ->
   incl (mps ks) (mps ks') /\ Forall (fun it => In (it_tgt it) (mps ks')) its.
 Proof.
-  induction 1 as [ks ksc|ks ksc its|ks ksc it its ops ks' ksc' st Hc Ht IH
-                 |ks ksc it its f ks1 ops ks' ksc' st Hc Hk Ht IH|ks ksc it its f Hc Hk];
-    intros Hst Hwc Hincl Hty Hw; try discriminate.
+  induction 1 as [ks|ks its|ks it its ops ks' st Hc Ht IH
+                 |ks it its f ks1 ops ks' st Hc Hk Ht IH|ks it its f Hc Hk];
+    intros Hst Hty Hw; try discriminate.
   - split; [apply incl_refl|constructor].
-  - inversion Hty as [|? ? Hty1 Hty2]; subst. destruct (IH eq_refl Hwc Hincl Hty2 Hw) as [H1 H2].
+  - inversion Hty as [|? ? Hty1 Hty2]; subst. destruct (IH eq_refl Hty2 Hw) as [H1 H2].
     split; [exact H1|]. constructor; [|exact H2].
-    rewrite cmounted_wf in Hc by exact Hwc. apply mounted_at_in in Hc. apply H1, Hincl, Hc.
+    rewrite cmounted_wf in Hc by exact Hw. apply mounted_at_in in Hc. apply H1, Hc.
   - inversion Hty as [|? ? Hty1 Hty2]; subst.
     assert (Hw1 : wf_table (ks_tab ks1) = true) by (eapply kmount_wf; [exact Hw|exact Hty1|exact Hk]).
     pose proof (kmount_mono _ _ _ _ _ _ _ _ Hk) as Hm.
-    assert (Hwc1 : wf_table (ks_tab (if it_refresh it then ks1 else ksc)) = true)
-      by (destruct (it_refresh it); assumption).
-    assert (Hincl1 : incl (mps (if it_refresh it then ks1 else ksc)) (mps ks1)).
-    { destruct (it_refresh it); [apply incl_refl|]. eapply incl_tran; eassumption. }
-    destruct (IH eq_refl Hwc1 Hincl1 Hty2 Hw1) as [H1 H2].
+    destruct (IH eq_refl Hty2 Hw1) as [H1 H2].
     split; [eapply incl_tran; eassumption|]. constructor; [|exact H2].
     apply H1. eapply kmount_ok_mounted. exact Hk.
 Qed.
@@ -220,11 +184,11 @@ Lemma ltrace_mounted ks ls ops ks' st :
   ltrace ks ls ops ks' st -> st = TDone -> wf_table (ks_tab ks) = true -> Forall tys_ok ls ->
   incl (mps ks) (mps ks') /\ Forall (Forall (fun it => In (it_tgt it) (mps ks'))) ls.
 Proof.
-  induction 1 as [ks|ks ls|ks its ls ops1 ks1 ksc1 ops2 ks2 st Hi Hl IH|ks its ls ops1 ks1 ksc1 st Hst Hi];
+  induction 1 as [ks|ks ls|ks its ls ops1 ks1 ops2 ks2 st Hi Hl IH|ks its ls ops1 ks1 st Hst Hi];
     intros Hd Hw Hty; try discriminate; try congruence.
   - split; [apply incl_refl|constructor].
   - inversion Hty as [|? ? Hty1 Hty2]; subst.
-    destruct (itrace_mounted _ _ _ _ _ _ _ Hi eq_refl Hw (incl_refl _) Hty1 Hw) as [H1 H2].
+    destruct (itrace_mounted _ _ _ _ _ Hi eq_refl Hty1 Hw) as [H1 H2].
     assert (Hw1 : wf_table (ks_tab ks1) = true) by (eapply itrace_wf; eassumption).
     destruct (IH eq_refl Hw1 Hty2) as [H3 H4].
     split; [eapply incl_tran; eassumption|]. constructor; [|exact H4].
@@ -232,29 +196,29 @@ Proof.
 Qed.
 
 (* ------------------------------------------------------------------ (e): nothing to do when everything is mounted *)
-Lemma itrace_idle ks ksc its ops ks' ksc' st :
-  itrace ks ksc its ops ks' ksc' st -> wf_table (ks_tab ksc) = true ->
-  Forall (fun it => In (it_tgt it) (mps ksc)) its -> ops = [] /\ ks' = ks /\ ksc' = ksc.
+Lemma itrace_idle ks its ops ks' st :
+  itrace ks its ops ks' st -> wf_table (ks_tab ks) = true ->
+  Forall (fun it => In (it_tgt it) (mps ks)) its -> ops = [] /\ ks' = ks.
 Proof.
-  induction 1 as [ks ksc|ks ksc its|ks ksc it its ops ks' ksc' st Hc Ht IH
-                 |ks ksc it its f ks1 ops ks' ksc' st Hc Hk Ht IH|ks ksc it its f Hc Hk];
-    intros Hwc Hall; auto.
+  induction 1 as [ks|ks its|ks it its ops ks' st Hc Ht IH
+                 |ks it its f ks1 ops ks' st Hc Hk Ht IH|ks it its f Hc Hk];
+    intros Hw Hall; auto.
   - inversion Hall; subst. now apply IH.
   - exfalso. inversion Hall as [|? ? Hin _]; subst.
-    rewrite cmounted_wf in Hc by exact Hwc. apply mounted_at_false in Hc. contradiction.
+    rewrite cmounted_wf in Hc by exact Hw. apply mounted_at_false in Hc. contradiction.
   - exfalso. inversion Hall as [|? ? Hin _]; subst.
-    rewrite cmounted_wf in Hc by exact Hwc. apply mounted_at_false in Hc. contradiction.
+    rewrite cmounted_wf in Hc by exact Hw. apply mounted_at_false in Hc. contradiction.
 Qed.
 
 Lemma ltrace_idle ks ls ops ks' st :
   ltrace ks ls ops ks' st -> wf_table (ks_tab ks) = true ->
   Forall (Forall (fun it => In (it_tgt it) (mps ks))) ls -> ops = [] /\ ks' = ks.
 Proof.
-  induction 1 as [ks|ks ls|ks its ls ops1 ks1 ksc1 ops2 ks2 st Hi Hl IH|ks its ls ops1 ks1 ksc1 st Hst Hi];
+  induction 1 as [ks|ks ls|ks its ls ops1 ks1 ops2 ks2 st Hi Hl IH|ks its ls ops1 ks1 st Hst Hi];
     intros Hw Hall; auto.
   - inversion Hall as [|? ? Ha1 Ha2]; subst.
-    destruct (itrace_idle _ _ _ _ _ _ _ Hi Hw Ha1) as (-> & -> & _).
+    destruct (itrace_idle _ _ _ _ _ Hi Hw Ha1) as (-> & ->).
     destruct (IH Hw Ha2) as (-> & ->). auto.
   - inversion Hall as [|? ? Ha1 Ha2]; subst.
-    destruct (itrace_idle _ _ _ _ _ _ _ Hi Hw Ha1) as (-> & -> & _). auto.
+    destruct (itrace_idle _ _ _ _ _ Hi Hw Ha1) as (-> & ->). auto.
 Qed.
